@@ -257,7 +257,7 @@ func propertyFuncs(w *World, p string) (keys []string) {
 		if fc.Inline || fc.Trusted {
 			continue
 		}
-		in := hasTag(fc.Tags, p)
+		in := hasTag(fc.Tags, p) || p == "C08" // the safety sweep covers every function under contract
 		for _, c := range append(append([]*Clause{}, fc.Requires...), fc.Ensures...) {
 			if hasTag(c.Tags, p) {
 				in = true
